@@ -4,6 +4,7 @@ Every name modelled here is listed in evidence.trusted_base when used."""
 import ast
 import z3
 from . import spec as S
+from . import modinfo
 from .vals import *
 from .core import *
 from .interp_call import SRange, SEnum
@@ -132,6 +133,17 @@ class BuiltinMixin:
         if isinstance(k, SClass):
             if isinstance(v, SObj):
                 return z3.BoolVal(self.is_subclass(self.obj_class(v), k.qual))
+            if isinstance(v, SDyn) and isinstance(v.shape, S.Rec) and v.shape.isa and ':' in v.shape.isa and not k.qual.endswith('!singleton'):
+                # the contract declares the value's class: decided from the class hierarchy of /repo
+                ci = self.d.classinfo(v.shape.isa)
+                if ci is not None:
+                    return z3.BoolVal(self.is_subclass(ci, k.qual))
+                m = modinfo.load(v.shape.isa.split(':')[0])
+                nm = v.shape.isa.split(':')[1]
+                call = m.assigns.get(nm, [None])[-1] if m is not None else None
+                if isinstance(call, ast.Call) and call.args and isinstance(call.args[0], ast.Constant) and call.args[0].value == nm:
+                    # a class manufactured at import time (X = node('X', ...)): its only base in /repo is the module's Node
+                    return z3.BoolVal(k.qual in (v.shape.isa, v.shape.isa.split(':')[0] + ':Node'))
             if isinstance(v, SDyn):
                 return z3.And(Val.is_VObj(v.t), isinst(v.t, z3.IntVal(class_id(k.qual))))
             return z3.BoolVal(False)
